@@ -1163,6 +1163,31 @@ class Interp:
                     return C(len(segs))
                 return ("len", ("iter", v))
             return ("len", ("iter", v))
+        if re.search(r"Option::<T>::(or_else|unwrap_or_else|or)$", g) and len(arg_nodes) == 2:
+            # `a.or_else(|| b)` / `a.unwrap_or_else(|| d)` / `a.or(b)`: the same two-way decision as
+            # `match a { Some(x) => .., None => .. }`, so that the paths (and the order of the lookups) are visible
+            v = ev(0)
+            unwrap = g.endswith("unwrap_or_else")
+            if is_var(v, SOME):
+                return v[2][0] if unwrap else v
+            kind = g.rsplit("::", 1)[-1]
+
+            def hit(e2):
+                return payload(v, SOME, 0) if unwrap else v
+
+            def miss(e2):
+                if kind == "or":
+                    return self.eval(arg_nodes[1], e2)
+                f = self.eval(arg_nodes[1], e2)
+                if f[0] == "closure":
+                    return self.call_closure(f, [])
+                if f[0] == "fnref":
+                    return self.call_path(f[1], [], f[2])
+                return ("app", "callvalue", (f,))
+            if is_var(v, NONE):
+                return miss(env)
+            c_some = ("is", v, SOME)
+            return self.branches([(c_some, hit), (("not", c_some), miss)], env, core.loc(n))
         if re.search(r"(Option::<T>::unwrap_or_default|Option::<T>::unwrap_or|Result::<T, E>::unwrap_or_default)$", g):
             v = ev(0)
             if is_var(v, SOME) or is_var(v, OK):
